@@ -102,6 +102,12 @@ def case(chk, i):
             continue
         lines = {}
         csig, rsig, gdecl, rabi = {}, {}, {}, {}
+        rabi_decl = {}
+        for it in inv["items"]:
+            if it["kind"] == "extern_block":
+                for m in it["members"]:
+                    if m["kind"] == "foreign_fn":
+                        rabi_decl[m["name"]] = m["sig"]
         called = []
         for line in so.splitlines():
             p = line.split(" ", 1)
@@ -138,6 +144,19 @@ def case(chk, i):
             obs["values_compared"] += 1
             if any(g != want for g in got):
                 problems.append("%s: passed/expected %s, other side saw %s" % (label, want, got[0]))
+        # functions that do not return: declared `-> !`, reached with their arguments, and never came back
+        for fn in lib.fns:
+            if getattr(fn, "noreturn", False) and fn.name in rabi_decl:
+                obs["noreturn_functions"] = obs.get("noreturn_functions", 0) + 1
+                # (`_Noreturn` is only recognised under --enable-function-attribute-detection; declaring such a function `-> ()` is
+                # call-compatible, so only the count is recorded)
+                if rabi_decl[fn.name].rstrip().endswith("-> !"):
+                    obs["noreturn_declared_never"] = obs.get("noreturn_declared_never", 0) + 1
+                if "NORETURN-RETURNED %s" % fn.name in so:
+                    problems.append("call of noreturn function %s returned" % fn.name)
+        for fn in lib.fns:
+            if not getattr(fn, "noreturn", False) and fn.name in rabi_decl and rabi_decl[fn.name].rstrip().endswith("-> !"):
+                problems.append("function %s returns in C but is declared `-> !`" % fn.name)
         # the calling convention each function is declared with: what C declares, unless an --override-abi pattern names the function
         ov = None
         if "--override-abi" in flags:
@@ -314,7 +333,8 @@ def run(chk):
         assumptions=["calls are executed on the x86_64 SysV host only; for apple-darwin / windows-msvc (cdecl, stdcall, fastcall) / i686 targets the "
                      "symbol each binding resolves to is predicted from (abi, link_name, name) with a small model of LLVM's platform mangling "
                      "and compared with `clang --target -c` + llvm-nm, per declaration",
-                     "noreturn functions are not called; C++ member functions are called non-virtually (the binding names one function); "
+                     "a noreturn function (30% of the libraries) is called last and leaves through exit(0): its arguments are compared, a return is a violation, "
+                     "and a function that does return must never be declared `-> !`; C++ member functions are called non-virtually (the binding names one function); "
                      "objects are moved by memcpy between construction and use, as the generated `new()` wrappers do"])
 
 
